@@ -494,14 +494,20 @@ DELIMS = [",", ",", ",", " ", ";", "\t", "|", ":"]
 
 
 def valid_token(t):
-    return re.fullmatch(r"[ \t\r\n]*[+-]?(\d+\.?\d*|\.\d+)([eE][+-]?\d+)?[ \t\r\n]*", t) is not None
+    """`istringstream(t) >> double` succeeds (a numeric PREFIX is enough: "2.5x" is 2.5, "1e" fails); the same
+    reading as for option values, compared with the real stream on every run (oracle_contract)"""
+    return dbl_value(t) is not None
+
+
+# tokens with a numeric prefix and trailing junk (read as the prefix) or with a broken exponent (rejected)
+SUFFIXES = ["x", ";", "e", "e+", "E-", ".5.5", "-2", "abc", "e2z", "%", "e999"]
 
 
 def gen_file_case(rng):
     d = rng.choice(DELIMS)
     # the library wants target_dimension < #samples even for pass-through: --td 1 and at least 2 rows and columns
     nrows, ncols = rng.choice([2, 3, 3, 4, 5]), rng.choice([2, 3, 3, 4])
-    mode = rng.choice(["clean", "clean", "clean", "garbage", "unequal", "blank", "crlf", "nonl", "nonl"] +
+    mode = rng.choice(["clean", "clean", "clean", "garbage", "unequal", "blank", "crlf", "nonl", "nonl", "suffix"] +
                       (["nonumbers"] if rng.random() < 0.35 else []))
     rows = []
     for i in range(nrows):
@@ -511,6 +517,13 @@ def gen_file_case(rng):
         # no line holds a number: every row is empty, the matrix has zero columns
         rows = [[rng.choice([g for g in GARBAGE_TOKENS if d not in g and g.strip()])
                  for _ in range(rng.choice([1, 2, 3]))] for _ in range(nrows)]
+    if mode == "suffix":
+        # trailing junk after a number is ignored by `>>`; a broken exponent makes the whole token fail
+        for r in rows:
+            for j in range(len(r)):
+                if rng.random() < 0.4:
+                    suf = rng.choice([x for x in SUFFIXES if d not in x])
+                    r[j] = r[j].rstrip() + suf
     if mode == "garbage":
         # garbage tokens are skipped silently: keep the number of valid tokens per row equal or not
         for r in rows:
@@ -534,7 +547,11 @@ def gen_file_case(rng):
     content = eol.join(lines) + (eol if mode != "nonl" else "")
     # a file without any valid token is N samples of dimension 0 (the model carries the sample count)
     flags = [f for f in ("transpose-input", "transpose-output") if rng.random() < 0.4]
-    args = [("m", "passthru"), ("td", "1")] + ([("d", d)] if d != "," or rng.random() < 0.3 else []) + [(f, None) for f in flags]
+    dopt = [("d", d)] if d != "," or rng.random() < 0.3 else []
+    if rng.random() < 0.04:
+        # -d "": delimiter[0] is the terminating NUL, every line is one token
+        dopt, mode = [("d", "")], mode + "+nul"
+    args = [("m", "passthru"), ("td", "1")] + dopt + [(f, None) for f in flags]
     return {"kind": "file", "mode": mode, "args": args, "content": content}
 
 
@@ -678,7 +695,7 @@ def py_read(content, d):
         toks = line.split(d)
         if toks and toks[-1] == "":
             toks = toks[:-1]
-        rows.append([float(t.strip()) for t in toks if valid_token(t)])
+        rows.append([dbl_value(t) for t in toks if valid_token(t)])
     if rows and any(len(r) != len(rows[0]) for r in rows):
         return None
     return rows
@@ -693,7 +710,7 @@ def py_rows(content, d):
         toks = line.split(d)
         if toks and toks[-1] == "":
             toks = toks[:-1]
-        rows.append([float(t.strip()) for t in toks if valid_token(t)])
+        rows.append([dbl_value(t) for t in toks if valid_token(t)])
     return rows
 
 
@@ -943,7 +960,7 @@ class Checker:
             if crashed(res):
                 ctx.violation(c, "the tool crashed or hung on this file (rc=%s): %s" % (res["rc"], res["err"][-300:]))
                 continue
-            d = dict((n, v) for n, v in args if v is not None).get("d", ",")[:1]
+            d = d_of(c)
             ti = any(n == "transpose-input" for n, _ in args)
             to = any(n == "transpose-output" for n, _ in args)
             rows = py_read(c["content"], d)
@@ -995,7 +1012,7 @@ class Checker:
                 h = mo.split()[1]
                 text = "" if h == "-" else bytes.fromhex(h).decode("latin-1")
                 mlines = text.split("\n")[:-1] if (text.endswith("\n") or text == "") else text.split("\n")
-                mrows = [[fmt(float(t.strip())) for t in l.split(d)] if l != "" else [] for l in mlines]
+                mrows = [[fmt(dbl_value(t)) for t in l.split(d)] if l != "" else [] for l in mlines]
                 mtext = "".join(d.join(r) + "\n" for r in mrows)
                 if res["rc"] != 0 or res["output"] != mtext:
                     ctx.mismatch(c, "model output %r vs tool rc=%d output %r" % (mtext[:100], res["rc"],
@@ -1157,7 +1174,7 @@ def close_text(got, want, d):
 
 def gen_small_files(limit=None):
     """every file of at most 2 lines x 2 tokens over {number, garbage, empty} with/without final newline"""
-    alphabet = ["1", "2.5", "x", ""]
+    alphabet = ["1", "2.5", "x", "", "3z", "4e"]
     out = []
     rows1 = [[a] for a in alphabet] + [[a, b] for a in alphabet for b in alphabet]
     for r1 in rows1:
@@ -1169,15 +1186,15 @@ def gen_small_files(limit=None):
     return out if limit is None else out[:: max(1, len(out) // limit)]
 
 
-def oracle_contract(ctx, ck, ipexe, rng, big):
+def oracle_contract(ctx, ck, ipexe, rng, big, only=None):
     """the readings of option values: the REAL cxxopts parsers (harness/c20_ip.cpp) against the extracted
     int_parse (model of integer_parser<int>) and against the double reading this module supplies"""
     toks = set(DBL_TOKENS + INT_BAD + [t for l in INT_TOKENS.values() for t in l])
-    for b in (2 ** 31 - 1, 2 ** 31, 2 ** 31 + 1, 2 ** 32 - 1, 2 ** 32, 2 ** 32 + 5, 4772185890, 429496729, 429496730,
+    for b in () if only is not None else (2 ** 31 - 1, 2 ** 31, 2 ** 31 + 1, 2 ** 32 - 1, 2 ** 32, 2 ** 32 + 5, 4772185890, 429496729, 429496730,
               477218588, 477218589, 10 ** 12):
         toks |= {str(b), "-" + str(b), hex(b), "-" + hex(b)}
     alph = "0123456789" * 3 + "abcdefABCDEFxX-+. eEgz"
-    for _ in range(20000 if big else 3000):
+    for _ in range(0 if only is not None else 20000 if big else 3000):
         c = rng.random()
         if c < 0.4:
             toks.add("".join(rng.choice(alph) for _ in range(rng.choice([1, 2, 3, 4, 5, 8, 10, 11, 12]))))
@@ -1189,7 +1206,7 @@ def oracle_contract(ctx, ck, ipexe, rng, big):
             toks.add(rng.choice(["", "-", "+", " "]) + rng.choice(["%d" % rng.randrange(0, 1000), ""]) +
                      rng.choice(["", ".", ".%d" % rng.randrange(0, 1000)]) +
                      rng.choice(["", "", "e", "e%d" % rng.randrange(0, 30), "E-%d" % rng.randrange(0, 30), "e+", "x"]))
-    toks = sorted(toks)
+    toks = sorted(toks) if only is None else list(only)
     hx = [hexs(t) or "-" for t in toks]
     r = ctx.run(ipexe, "\n".join(hx) + "\n", timeout=120)
     real = r.out.splitlines()
@@ -1397,6 +1414,8 @@ def replay_case(ck, c):
         ck.library([c])
     elif kind == "argv":
         ck.rawargv([c["argv"]])
+    elif kind == "oracle" and getattr(ck.ctx, "c20_ip", None):
+        oracle_contract(ck.ctx, ck, ck.ctx.c20_ip, None, False, only=[c.get("token", "")])
 
 
 def replay(ctx, case):
